@@ -253,6 +253,21 @@ ANNOTS = ['int', "'int'", "'List[int]'", "List['A']", "Literal['a']", 'Optional[
           "Annotated[int, 'meta']", "'Callable[..., \"A\"]'"]
 
 
+def attribute(vs: List[Dict[str, Any]], dsig: Optional[str], a: str) -> None:
+    """attribute a deviation to the expression at fault (shared with C15) so that distinct root causes stay distinct"""
+    for v in vs:
+        if v['sig'].endswith(('default-value', 'unparsable')) and dsig:
+            v['sig'] += '/' + dsig
+        elif v['sig'].endswith(('annotation', 'returns', 'unparsable')):
+            v['sig'] += '/annotation:' + core.h(a)[:6]
+
+
+def default_sig(d: str) -> Optional[str]:
+    dnode = ast.parse(ast.unparse(ast.parse(d, mode='eval').body), mode='eval').body
+    dv = c15.verdict(dnode)
+    return c15.signature(dnode, dv[0]) if dv else None
+
+
 def run_exprs(di: int, res: Dict[str, Any]) -> None:
     from pydoctor.templatewriter.pages import format_signature
     d = DEFAULTS[di]
@@ -263,24 +278,17 @@ def run_exprs(di: int, res: Dict[str, Any]) -> None:
         rows.append((f'p, /, q: {a} = {d}, **k: {a}', ''))
     src = '\n'.join(f'def f{i}({t}){ret}: pass' for i, (t, ret) in enumerate(rows)) + '\n'
     s = pd.build_mem([pd.Mod('m', src)])
-    dnode = ast.parse(d, mode='eval').body
-    dv = c15.verdict(ast.parse(ast.unparse(dnode), mode='eval').body)
-    dsig = c15.signature(ast.parse(ast.unparse(dnode), mode='eval').body, dv[0]) if dv else None
+    dsig = default_sig(d)
     for i, (t, ret) in enumerate(rows):
         fn = s.allobjects[f'm.f{i}']
         res['evals'] += 1
         res['nontrivial_count'] += 1
         a = ANNOTS[i // 3]
-        case = {'kind': 'expr', 'sig': t, 'ret': ret}
+        case = {'kind': 'expr', 'sig': t, 'ret': ret, 'default': d, 'annotation': a}
         text = text_of(format_signature(fn))
         before = len(res['violations'])
         compare(t, ret, text, 'exprs', case, res)
-        for v in res['violations'][before:]:
-            # attribute the deviation to the expression at fault (shared with C15) so that distinct root causes stay distinct
-            if v['sig'].endswith(('default-value', 'unparsable')) and dsig:
-                v['sig'] += '/' + dsig
-            elif v['sig'].endswith(('annotation', 'returns', 'unparsable')):
-                v['sig'] += '/annotation:' + core.h(a)[:6]
+        attribute(res['violations'][before:], dsig, a)
     if len(res['samples']) < 2:
         res['samples'].append({'source': f'def f({rows[4][0]}){rows[4][1]}', 'displayed': text_of(format_signature(s.allobjects['m.f4']))})
 
@@ -357,4 +365,5 @@ def replay(case: Dict[str, Any]) -> List[Dict[str, Any]]:
         from pydoctor.templatewriter.pages import format_signature
         s = pd.build_mem([pd.Mod('m', f'def f0({case["sig"]}){case["ret"]}: pass\n')])
         compare(case['sig'], case['ret'], text_of(format_signature(s.allobjects['m.f0'])), 'exprs', case, res)
+        attribute(res['violations'], default_sig(case['default']) if case.get('default') else None, case.get('annotation', ''))
     return res['violations']
